@@ -11,6 +11,7 @@ from .builtins_ import (apply, call_method, get_subscript, eq_term, contains_ter
                         call_function, quantify, class_mro)
 
 EXT = {}
+EXT_CONSTS = {}   # dotted name -> concrete constant of an external library (assumed)
 
 
 def external(name, note=""):
